@@ -155,6 +155,22 @@ def judge_pair(case, rec, compiled=None):
         rec.check(ok, "paths-agree", f"_merge_data ({p4.tolist()},{r4},{w4}) != merge ({pm.tolist()},{rm},{wm}); {label}")
         rec.check(common.droplet_bytes(a4) == ba and common.droplet_bytes(b4) == bb, "operands-unchanged",
                   f"_merge_data modified an operand; {label}")
+    # ---- aliasing: the output may be any of the operands (documented in-place use is out=first operand;
+    # the merge function itself takes an arbitrary out record)
+    a5, b5 = _mk(case["a"], ra_), _mk(case["b"], rb_)
+    c5 = common.monitored(rec, "_merge_data(out=second)", type(a5)._merge_data, a5.data, b5.data, out=b5.data)
+    if rec.check(c5.ok, "no-exception", f"_merge_data(a, b, out=b) raised {c5.exc!r}; {label}"):
+        p5, r5, w5 = _state(b5)
+        ok = close(p5, pm, scale) and close(r5, rm, max(rm, 1e-300)) and (close(w5, wm, max(abs(wm), 1e-300)) or (math.isnan(w5) and math.isnan(wm)))
+        rec.check(ok, "paths-agree", f"_merge_data(a, b, out=b) gives ({p5.tolist()},{r5},{w5}), merge gives ({pm.tolist()},{rm},{wm}); {label}")
+        rec.check(common.droplet_bytes(a5) == ba, "operands-unchanged", f"_merge_data(a, b, out=b) modified a; {label}")
+    if Va > 0:
+        a6 = _mk(case["a"], ra_)
+        c6 = common.monitored(rec, "merge(self, inplace)", a6.merge, a6, inplace=True)
+        if rec.check(c6.ok, "no-exception", f"a.merge(a, inplace=True) raised {c6.exc!r}; {label}"):
+            p6, r6, _w6 = _state(a6)
+            rec.check(abs(vol(r6, dim) - 2 * Va) <= 1e-12 * 2 * Va and bool(np.all(np.abs(p6 - pa) <= 1e-12 * scale)), "volume-additive",
+                      f"merging a droplet with itself in place gives volume {vol(r6, dim)!r} at {p6.tolist()}, expected {2 * Va!r} at {pa.tolist()}; {label}")
     if compiled is not None:
         f = compiled(type(a), a.data.dtype)
         arr = np.recarray(3, dtype=a.data.dtype)
@@ -168,6 +184,13 @@ def judge_pair(case, rec, compiled=None):
             rec.check(ok, "compiled-agrees", f"compiled ({p5.tolist()},{r5},{w5}) != python ({pm.tolist()},{rm},{wm}); {label}")
             rec.check(arr[0].tobytes() == a.data.tobytes() and arr[1].tobytes() == b.data.tobytes(), "operands-unchanged",
                       f"compiled merge modified an operand; {label}")
+        # the compiled path with the output aliasing the second operand
+        arr[0], arr[1] = _mk(case["a"]).data, _mk(case["b"]).data
+        c7 = common.monitored(rec, "compiled-merge", f, arr, 0, 1, 1)
+        if rec.check(c7.ok, "no-exception", f"compiled merge (out = second operand) raised {c7.exc!r}; {label}"):
+            p7, r7, w7 = _state(type(a).from_data(arr[1]))
+            ok = close(p7, pm, scale) and close(r7, rm, max(rm, 1e-300)) and (close(w7, wm, max(abs(wm), 1e-300)) or (math.isnan(w7) and math.isnan(wm)))
+            rec.check(ok, "compiled-agrees", f"compiled merge with out = second operand ({p7.tolist()},{r7},{w7}) != python ({pm.tolist()},{rm},{wm}); {label}")
         # in-place through the compiled path (out aliases the first operand)
         arr[0], arr[1] = _mk(case["a"]).data, _mk(case["b"]).data
         c6 = common.monitored(rec, "compiled-merge", f, arr, 0, 1, 0)
